@@ -14,8 +14,26 @@ def accepting(cost, v, t):
     return (v >= t) if cost == 'r2' else (v < t)
 
 
-def explain(orc, t, cost, l, r, retained, depth=0):
-    """is the set of retained indices inside [l, r) explained by a recursive split? returns (ok, why)"""
+class ExplainBudget(Exception):
+    pass
+
+
+def explain(orc, t, cost, l, r, retained, depth=0, memo=None):
+    """is the set of retained indices inside [l, r) explained by a recursive split? returns (ok, why).
+    Memoised on (l, r) (the answer depends on nothing else) and bounded: many exactly tied candidates would otherwise backtrack exponentially."""
+    if memo is None:
+        memo = {'calls': 0}
+    if (l, r) in memo:
+        return memo[(l, r)]
+    memo['calls'] += 1
+    if memo['calls'] > 20000:
+        raise ExplainBudget()
+    res = _explain(orc, t, cost, l, r, retained, depth, memo)
+    memo[(l, r)] = res
+    return res
+
+
+def _explain(orc, t, cost, l, r, retained, depth, memo):
     inner = [i for i in retained if l < i < r - 1]
     v = orc.cst(l, r) if r - l > 2 else (1.0 if cost == 'r2' else 0.0)
     if not inner:
@@ -26,18 +44,18 @@ def explain(orc, t, cost, l, r, retained, depth=0):
         return False, dict(clause='split-only-where-rejecting', range=[l, r], cost=float(v), t=t, retained_inside=inner)
     d = np.asarray(orc.dst(l, r), dtype=float)
     mx = float(np.max(d[1:-1]))
-    tol = 1e-9 * (1.0 + abs(mx))
+    tol = 1e-9 * abs(mx) + 1e-300           # rounding noise relative to the distances themselves (no absolute floor: tiny-magnitude curves are judged as sharply)
     cands = [i for i in inner if d[i - l] >= mx - tol]
     if not cands:
         return False, dict(clause='split-at-farthest-interior-point', range=[l, r], max_interior_distance=mx,
                            retained_inside=inner, their_distances=[float(d[i - l]) for i in inner])
     why = None
     for s in cands:
-        ok1, w1 = explain(orc, t, cost, l, s + 1, retained, depth + 1)
+        ok1, w1 = explain(orc, t, cost, l, s + 1, retained, depth + 1, memo)
         if not ok1:
             why = w1
             continue
-        ok2, w2 = explain(orc, t, cost, s, r, retained, depth + 1)
+        ok2, w2 = explain(orc, t, cost, s, r, retained, depth + 1, memo)
         if ok2:
             return True, None
         why = w2
@@ -60,7 +78,16 @@ def one(ctx, pts, cfg, family):
         return  # C01 territory, already reported by run_case
     orc = rdpfam.Oracles(pts, cfg['dist'], cfg['cost'], 'segment')
     try:
-        ok, why = explain(orc, cfg['t'], cfg['cost'], 0, n, set(red))
+        import sys
+        lim = sys.getrecursionlimit()
+        sys.setrecursionlimit(max(lim, 4 * len(red) + 200))
+        try:
+            ok, why = explain(orc, cfg['t'], cfg['cost'], 0, n, set(red))
+        finally:
+            sys.setrecursionlimit(lim)
+    except ExplainBudget:
+        ctx.tag('explainer-budget-exhausted(inconclusive)')
+        return
     except Exception as e:
         ctx.fail('predicate', 'explainer-primitive-raised', res['site'], res['case'], repr(e)[:200])
         return
